@@ -497,7 +497,7 @@ inline Plan gen_c10_wire(u64 seed, const std::string& tier)
     p.set("engine", "wire");
     p.set("build", "checked");
     if(sim::options().count("known")) p.set("known", sim::options()["known"]);
-    const auto& ds = drivers();
+    const auto& ds = consumer_drivers();
     const Driver& d = ds[wl.below(ds.size())];
     const SchemaShape& sh = *d.shape;
     p.set("schema", sh.name);
